@@ -278,6 +278,14 @@ def c07d(ctx):
             g.guarded(n, lambda at: at.op == '<' and is_stop(at.left) and is_now(at.right), True)
         ctx.check(ok, 'FileLock.lock:timeout-after-deadline', 'LockTimeout only when not (now < stop_time)', fn, st,
                   fail='LockTimeout can be raised before the deadline has passed')
+        # "only if the lock was unavailable until the deadline": the give-up follows a failed attempt directly -- no sleep between
+        # the last attempt and the raise (a lock released during that sleep would never be tried)
+        tries = [m for m, _ in g.find(lambda x: is_call(x, 'self._try_lock'))]
+        sleeps = [m for m, _ in g.find(lambda x: is_call(x, 'time.sleep', 'sleep'))]
+        ok = bool(tries) and not any(g.reaches_avoiding(sl, n, avoid=set(tries)) for sl in sleeps)
+        ctx.check(ok, 'FileLock.lock:no-sleep-before-giving-up', 'between the last failed attempt and LockTimeout the waiter does not sleep', fn, st,
+                  fail='the waiter sleeps after its last attempt and then gives up without trying again: a lock released during the last '
+                       'interval before the deadline is reported as timed out')
     defs = Defs(fn.node)
     stops = [v for v, sel in defs.of('stop_time')]
     ok = bool(stops) and all(contains(v, lambda x: unparse(x) == 'self.timeout') and isinstance(v, ast.BinOp) and isinstance(v.op, ast.Add) for v in stops)
